@@ -159,8 +159,114 @@ RULE = ("pair cases (a, b): intersection(a,b), intersection(b,a), intersection(a
 CASE_TIMEOUT = 10
 
 LEVELS = [-1, 0, 1, 2, 3]
-FALSY = [0, False, None, "", []]
-TRUTHY = [1, True, "x", [1], 2, "y", [{}]]
+
+
+# ----------------------------------------------------------------------------------------
+# the value domain.  Cases are JSON; values that JSON cannot express are written as marker objects {"$": kind, "v": …}
+# and a key "#n" stands for the integer key n.  `_build` makes the Python values handed to lena (always new,
+# tree-shaped objects), `_unbuild` writes results back.  Everything that judges values (oracle, references, leaf classes)
+# works on the built values with Python's own `==`, as the code under test does.
+
+class _Obj(object):
+    """an opaque mutable object with value equality (what a user-defined class with __eq__ looks like)"""
+
+    def __init__(self, p):
+        self.p = p
+
+    def __eq__(self, o):
+        return isinstance(o, _Obj) and o.p == self.p
+
+    def __ne__(self, o):
+        return not self.__eq__(o)
+
+    def __hash__(self):
+        return hash(("_Obj", self.p))
+
+    def __repr__(self):
+        return "Obj(%r)" % (self.p,)
+
+
+class _DictSub(dict):
+    """a dictionary subclass ("This function always returns a dictionary or its subtype")"""
+
+    def __repr__(self):
+        return "DictSub(%s)" % dict.__repr__(self)
+
+
+def _T(*v):
+    return {"$": "tuple", "v": list(v)}
+
+
+def _F(x):
+    return {"$": "float", "v": repr(float(x))}
+
+
+def _bkey(k):
+    if isinstance(k, str) and k[:1] == "#" and k[1:].lstrip("-").isdigit():
+        return int(k[1:])
+    return k
+
+
+def _kstr(k):
+    return "#%d" % k if isinstance(k, int) and not isinstance(k, bool) else k
+
+
+def _isd(v):
+    """a dictionary of the case (not the marker of a leaf)"""
+    return isinstance(v, dict) and "$" not in v
+
+
+def _build(v):
+    if isinstance(v, dict):
+        kind = v.get("$")
+        if kind is None:
+            return {_bkey(k): _build(x) for k, x in v.items()}
+        if kind == "tuple":
+            return tuple(_build(x) for x in v["v"])
+        if kind == "set":
+            return set(_build(x) for x in v["v"])
+        if kind == "frozenset":
+            return frozenset(_build(x) for x in v["v"])
+        if kind == "float":
+            return float(v["v"])
+        if kind == "obj":
+            return _Obj(v["v"])
+        if kind == "bytes":
+            return v["v"].encode("ascii")
+        if kind == "dictsub":
+            return _DictSub((_bkey(k), _build(x)) for k, x in v["v"].items())
+        raise ValueError(v)
+    if isinstance(v, list):
+        return [_build(x) for x in v]
+    return v
+
+
+def _unbuild(v):
+    if isinstance(v, _DictSub):
+        return {"$": "dictsub", "v": {_kstr(k): _unbuild(x) for k, x in v.items()}}
+    if isinstance(v, dict):
+        return {_kstr(k): _unbuild(x) for k, x in v.items()}
+    if isinstance(v, list):
+        return [_unbuild(x) for x in v]
+    if isinstance(v, tuple):
+        return {"$": "tuple", "v": [_unbuild(x) for x in v]}
+    if isinstance(v, (set, frozenset)):
+        return {"$": "set" if isinstance(v, set) else "frozenset", "v": sorted((_unbuild(x) for x in v), key=jdump)}
+    if isinstance(v, float):
+        return {"$": "float", "v": repr(v)}
+    if isinstance(v, _Obj):
+        return {"$": "obj", "v": v.p}
+    if isinstance(v, bytes):
+        return {"$": "bytes", "v": v.decode("ascii")}
+    return v
+
+
+FALSY = [0, False, None, "", [], _F(0.0), _T(), {"$": "set", "v": []}]
+TRUTHY = [1, True, "x", [1], 2, "y", [{}],
+          _T(1), _T([1]), _T({"x": [1]}),          # tuples: immutable themselves, may hold mutable objects (context.zip)
+          {"$": "set", "v": [1, 2]}, {"$": "frozenset", "v": [1]},
+          _F(1.5), _F(1.5000000000000002),         # neighbouring floats: equal only under a tolerance
+          {"$": "obj", "v": 7}, {"$": "bytes", "v": "x"}]
 PALETTE = FALSY + TRUTHY
 
 
@@ -210,7 +316,7 @@ def _mutate(rng, d, keys, leaves):
         cur = d
         while True:
             k = rng.choice(keys)
-            if isinstance(cur.get(k), dict) and rng.random() < 0.6:
+            if _isd(cur.get(k)) and rng.random() < 0.6:
                 cur = cur[k]
                 continue
             r = rng.random()
@@ -232,7 +338,7 @@ def _with_changed(rng, c, p=0.5):
     r = rng.random()
     if r < p:
         out = c.get("output")
-        if not isinstance(out, dict):
+        if not _isd(out):
             out = c["output"] = {}
         out["changed"] = rng.choice(CHANGED_VALUES)
     elif r < p + 0.08:
@@ -267,7 +373,7 @@ def _mutate_deep(rng, d, keys, leaves):
     for _ in range(rng.randint(1, 2)):
         cur = d
         while True:
-            sub = [k for k in keys if isinstance(cur.get(k), dict)]
+            sub = [k for k in keys if _isd(cur.get(k))]
             if sub and rng.random() < 0.9:
                 cur = cur[rng.choice(sub)]
                 continue
@@ -334,12 +440,16 @@ def _gen(ctx, n_exh_leaves, n_pair, n_multi, n_nested, n_bad, n_ext):
     def pairs():
         rng = __import__("random").Random(seeds[0])
         for _ in range(n_pair):
-            depth = rng.choice([1, 2, 3, 3])
+            depth = rng.choice([1, 2, 3, 3, 3])
             leaves = PALETTE if rng.random() < 0.7 else rng.sample(PALETTE, 3)
-            a = _rand_dict(rng, keys3, depth, leaves)
-            b = _mutate(rng, a, keys3, leaves) if rng.random() < 0.6 else _rand_dict(rng, keys3, depth, leaves)
+            keys = keys3 if rng.random() < 0.85 else ["a", "#1", "#2"]         # integer keys 1, 2
+            a = _rand_dict(rng, keys, depth, leaves)
+            b = _mutate(rng, a, keys, leaves) if rng.random() < 0.6 else _rand_dict(rng, keys, depth, leaves)
             if rng.random() < 0.5:
                 a, b = b, a
+            if rng.random() < 0.12:
+                # a dictionary subclass as the first argument (the result is "a dictionary or its subtype")
+                a = {"$": "dictsub", "v": a}
             yield {"op": "pair", "a": a, "b": b, "levels": LEVELS, "paths": True}
 
     def deep_pairs():
@@ -431,6 +541,9 @@ def _gen(ctx, n_exh_leaves, n_pair, n_multi, n_nested, n_bad, n_ext):
         for _ in range(n_ext):
             leaves = PALETTE if rng.random() < 0.5 else rng.sample(PALETTE, 3)
             keys = keys3 if rng.random() < 0.6 else ["a", "b", "zip"]
+            if "zip" in keys:
+                # (the harness recognises the parts that Zip stores under "zip" by their being a tuple)
+                leaves = [x for x in leaves if not (isinstance(x, dict) and x.get("$") == "tuple")] or [0, 1]
             vals = _family(rng, keys, rng.choice([1, 2, 2]), leaves, rng.choice([1, 2, 2, 3, 4]), p_mut=0.85)
             case = {"op": "zip", "values": vals, "fields": rng.random() < 0.3, "kind": rng.choice(["fc", "fc", "fr"])}
             if rng.random() < 0.4:
@@ -456,17 +569,19 @@ def _gen(ctx, n_exh_leaves, n_pair, n_multi, n_nested, n_bad, n_ext):
             leaves = PALETTE if rng.random() < 0.5 else rng.sample(PALETTE, 3)
             fam = _family(rng, keys3, rng.choice([1, 2, 2]), leaves, rng.choice([2, 3, 4, 5]), p_mut=0.9)
             new = fam[1:]
-            old = ref_glb(-1, fam[0], fam[1]) if rng.random() < 0.7 else _mutate(rng, fam[0], keys3, leaves)
-            ctx_ = _fresh(old) if rng.random() < 0.6 else _mutate(rng, old, keys3, leaves)
+            old = (_unbuild(ref_glb(-1, _build(fam[0]), _build(fam[1]))) if rng.random() < 0.7
+                   else _mutate(rng, fam[0], keys3, leaves))
+            ctx_ = copy.deepcopy(old) if rng.random() < 0.6 else _mutate(rng, old, keys3, leaves)
             if rng.random() < 0.5:
                 ctx_[rng.choice(keys3)] = copy.deepcopy(rng.choice(leaves))
             if rng.random() < 0.35:
                 # through MapGroup.run: the old intersection is computed from context.group, one new context per member
                 oldgrp = [_mutate(rng, c, keys3, leaves) for c in new]
-                glb = oldgrp[0]
+                glb = _build(oldgrp[0])
                 for c in oldgrp[1:]:
-                    glb = ref_glb(-1, glb, c)
-                ctx_ = _fresh(glb) if rng.random() < 0.7 else _mutate(rng, glb, keys3, leaves)
+                    glb = ref_glb(-1, glb, _build(c))
+                glb = _unbuild(glb)
+                ctx_ = copy.deepcopy(glb) if rng.random() < 0.7 else _mutate(rng, glb, keys3, leaves)
                 if rng.random() < 0.5:
                     ctx_[rng.choice(keys3)] = copy.deepcopy(rng.choice(leaves))
                 case = {"op": "uwg", "ctx": _with_changed(rng, ctx_, 0.3), "new": [_with_changed(rng, c, 0.3) for c in new],
@@ -477,7 +592,7 @@ def _gen(ctx, n_exh_leaves, n_pair, n_multi, n_nested, n_bad, n_ext):
                 yield case
                 continue
             yield {"op": "uwg", "ctx": _with_changed(rng, ctx_, 0.4), "new": [_with_changed(rng, c, 0.3) for c in new],
-                   "old": _with_changed(rng, _fresh(old), 0.15)}
+                   "old": _with_changed(rng, copy.deepcopy(old), 0.15)}
 
     return _interleave([exh_pairs(), exh_small(), pairs(), deep_pairs(), multis(), nesteds(), bads(), ustrs(), zips(), groups(), uwgs()])
 
@@ -568,7 +683,7 @@ def get_path(v, p):
 def _paths(v, pre=()):
     """all key paths to nodes of the nested dictionary v (without the empty path)"""
     out = []
-    if isinstance(v, dict):
+    if _isd(v):
         for k in v:
             out.append(pre + (k,))
             out.extend(_paths(v[k], pre + (k,)))
@@ -616,16 +731,23 @@ def _prunings(a, limit=12):
 # ----------------------------------------------------------------------------------------
 # the real code
 
+_MUTABLE = (dict, list, set, _Obj)
+
+
+def _children(o):
+    if isinstance(o, dict):
+        return list(o.values())
+    if isinstance(o, (list, tuple)):
+        return list(o)
+    return []          # the members of a set are hashable: nothing mutable below; _Obj is a black box
+
+
 def _mut_ids(v, acc):
-    """ids of all mutable objects (dictionaries, lists) reachable from v"""
-    if isinstance(v, dict):
+    """ids of all mutable objects (dictionaries, lists, sets, opaque objects) reachable from v, also through tuples"""
+    if isinstance(v, _MUTABLE):
         acc.add(id(v))
-        for x in v.values():
-            _mut_ids(x, acc)
-    elif isinstance(v, list):
-        acc.add(id(v))
-        for x in v:
-            _mut_ids(x, acc)
+    for x in _children(v):
+        _mut_ids(x, acc)
     return acc
 
 
@@ -638,14 +760,14 @@ def _shares(res, *args):
 
 
 def _mut_objs(leaf):
-    """the mutable objects a leaf consists of (the list itself, lists and dictionaries inside it), in preorder"""
+    """the mutable objects a leaf consists of (a list or set itself, lists and dictionaries inside lists/tuples), preorder"""
     out = []
 
     def rec(o):
-        if isinstance(o, (list, dict)):
+        if isinstance(o, _MUTABLE):
             out.append(o)
-            for x in (o.values() if isinstance(o, dict) else o):
-                rec(x)
+        for x in _children(o):
+            rec(x)
     rec(leaf)
     return out
 
@@ -658,7 +780,8 @@ def _tok_tree(v, enc, ctr, idmap=None):
         ctr[0] += 1
         if idmap is not None:
             idmap[id(v)] = t
-        return {"t": t, "s": [(_tok_tree(v[k], enc, ctr, idmap) if k in v else None) for k in enc.keys]}
+        kv = {_kstr(k): x for k, x in v.items()}
+        return {"t": t, "s": [(_tok_tree(kv[k], enc, ctr, idmap) if k in kv else None) for k in enc.keys]}
     ts = []
     for o in _mut_objs(v):
         ts.append(ctr[0])
@@ -671,15 +794,16 @@ def _tok_tree(v, enc, ctr, idmap=None):
 def _tok_result(v, enc, idmap):
     """the same form for a result: identity of a known object, -1 for a new one (-2: an object of the second argument)"""
     if isinstance(v, dict):
+        kv = {_kstr(k): x for k, x in v.items()}
         return {"t": idmap.get(id(v), -1),
-                "s": [(_tok_result(v[k], enc, idmap) if k in v else None) for k in enc.keys]}
+                "s": [(_tok_result(kv[k], enc, idmap) if k in kv else None) for k in enc.keys]}
     return {"l": enc.cls(v), "t": [idmap.get(id(o), -1) for o in _mut_objs(v)]}
 
 
 def _shallow(o):
     """the items of one dictionary object: keys with the identity of mutable values and the value of scalars"""
-    return sorted((k, ("id", id(v)) if isinstance(v, (dict, list)) else ("v", type(v).__name__, repr(v)))
-                  for k, v in o.items())
+    return sorted(((_kstr(k), ("id", id(v)) if isinstance(v, _MUTABLE + (tuple,)) else ("v", type(v).__name__, repr(v)))
+                   for k, v in o.items()), key=lambda kv: str(kv[0]))
 
 
 def _shallow_all(*roots):
@@ -692,7 +816,7 @@ def _shallow_all(*roots):
                 out[id(v)] = (v, _shallow(v))
                 for x in v.values():
                     rec(x)
-        elif isinstance(v, list):
+        elif isinstance(v, (list, tuple)):
             for x in v:
                 rec(x)
     for r in roots:
@@ -706,12 +830,12 @@ def _written(before, idmap):
 
 
 def _fresh(v):
-    """a tree-shaped private copy of a case value (copy.deepcopy would preserve aliasing between sub-dictionaries)"""
-    return json.loads(json.dumps(v))
+    """the Python value of a case value: new, tree-shaped objects at every call"""
+    return _build(v)
 
 
 def _snap(*vs):
-    return jdump(list(vs))
+    return jdump(_unbuild(list(vs)))
 
 
 def _call(f, *a, **kw):
@@ -724,11 +848,12 @@ def _call(f, *a, **kw):
 def run_impl(case):
     """the observations are returned as one JSON string (field "z"): the big runs keep hundreds of thousands of results
     in memory, and a string is several times smaller than the tree; `_unz` decodes it where it is used"""
-    return {"z": jdump(_run_impl(case))}
+    return {"z": jdump(_unbuild(_run_impl(case)))}
 
 
 def _unz(r):
-    return json.loads(r["z"]) if isinstance(r, dict) and "z" in r else r
+    """decode a stored result (and rebuild the Python values in it)"""
+    return _build(json.loads(r["z"])) if isinstance(r, dict) and "z" in r else r
 
 
 def _run_impl(case):
@@ -1051,10 +1176,10 @@ def _case_values(case):
 
 
 def _collect_keys(v, acc):
-    """keys of all dictionaries of a value (lists are leaves: what is inside them is not a context key)"""
+    """keys (as case strings) of all dictionaries of a value (lists, tuples … are leaves: what is inside is not a context key)"""
     if isinstance(v, dict):
         for k, x in v.items():
-            acc.add(k)
+            acc.add(_kstr(k))
             _collect_keys(x, acc)
 
 
@@ -1062,6 +1187,7 @@ class _Enc:
     """slot-vector encoding of the values of one case: sorted key alphabet, leaf classes under =="""
 
     def __init__(self, case):
+        case = _build(case)
         keys = set()
         for v in _case_values(case):
             _collect_keys(v, keys)
@@ -1074,7 +1200,7 @@ class _Enc:
             keys.add("zip")
         elif op in ("group", "uwg"):
             keys.update(("output", "changed"))
-        self.keys = sorted(keys)
+        self.keys = sorted(keys, key=str)
         self.classes = []          # representatives of the leaf classes under ==
         if op in ("group", "uwg"):
             self.tt, self.ff = self.cls(True), self.cls(False)
@@ -1082,27 +1208,31 @@ class _Enc:
             self.val(v)
 
     def cls(self, leaf):
+        """the class of a leaf under Python's own `==` (what the code under test observes): 0 == False == 0.0,
+        (1,) != [1], {1} == frozenset({1})"""
         for i, r in enumerate(self.classes):
-            if type(r) in (int, bool) and type(leaf) in (int, bool):
-                if r == leaf:
-                    return i
-            elif type(r) is type(leaf) and r == leaf:
+            try:
+                same = (r == leaf) is True and (leaf == r) is True
+            except Exception:  # noqa
+                same = False
+            if same:
                 return i
         self.classes.append(leaf)
         return len(self.classes) - 1
 
     def val(self, v):
         if isinstance(v, dict):
-            extra = [k for k in v if k not in self.keys]
-            slots = [self.val(v[k]) if k in v else None for k in self.keys]
-            return slots + [{"unknown-key": k} for k in extra] if extra else slots
+            kv = {_kstr(k): x for k, x in v.items()}
+            extra = [k for k in kv if k not in self.keys]
+            slots = [self.val(kv[k]) if k in kv else None for k in self.keys]
+            return slots + [{"unknown-key": str(k)} for k in extra] if extra else slots
         return self.cls(v)
 
     def falsy(self):
         return [i for i, r in enumerate(self.classes) if not r]
 
     def path(self, p):
-        return [self.keys.index(k) for k in p]
+        return [self.keys.index(_kstr(k)) for k in p]
 
 
 def _enc(case):
@@ -1112,15 +1242,17 @@ def _enc(case):
 def _pair_paths(case):
     a, b = case["a"], case["b"]
     ps = set(_paths(a)) | set(_paths(b))
-    keys = sorted({k for p in ps for k in p})
+    order = lambda p: [str(_kstr(k)) for k in p]          # keys may be strings and integers
+    keys = sorted({k for p in ps for k in p}, key=lambda k: str(_kstr(k)))
     ext = set()
-    for p in sorted(ps)[:10]:
+    for p in sorted(ps, key=order)[:10]:
         for k in keys[:2]:
             ext.add(p + (k,))
-    return [()] + sorted(ps | ext)[:40]
+    return [()] + sorted(ps | ext, key=order)[:40]
 
 
 def model_requests(case):
+    case = _build(case)
     op = case["op"]
     e = _enc(case)
     n = len(e.keys)
@@ -1265,6 +1397,7 @@ def compare(case, res, replies):
     for m in replies:
         if "err" in m:
             return f"model driver error: {m['err']}"
+    case = _build(case)
     res = _unz(res)
     replies = [_unz(m) for m in replies]
     e = _enc(case)
@@ -1484,7 +1617,7 @@ def _oracle_inter(lv, ds, res, what):
 
 def oracle(case, res):
     """None if the property's statement holds on this case, else "[tag] description" (the tag is the signature)"""
-    msg = _oracle(case, _unz(res))
+    msg = _oracle(_build(case), _unz(res))
     if msg is None:
         return None
     for tag, pat in _TAGS:
@@ -1569,7 +1702,7 @@ def _oracle(case, res):
         for p in _paths(a):
             if untouched(b, p) and get_path(upd, p) != get_path(a, p):
                 after = get_path(upd, p)
-                return (f"update_recursively({a}, {b}) gives {upd}: the item at {'.'.join(p)} is not overwritten by other "
+                return (f"update_recursively({a}, {b}) gives {upd}: the item at {'.'.join(map(str, p))} is not overwritten by other "
                         f"but changed from {get_path(a, p)!r} to {'nothing (absent)' if after is _NOPATH else repr(after)}")
         # (update_recursively documents nothing about `other`, and difference warns that it may return parts of d1:
         # whether `other` / d1 are changed by the update is recorded in the result but is outside the statement)
@@ -1653,7 +1786,7 @@ def _oracle(case, res):
         for p in _paths(d0):
             if untouched(o, p) and get_path(r, p) != get_path(d0, p):
                 after = get_path(r, p)
-                return (f"{what} gives {r}: the item at {'.'.join(p)} is not overwritten by other but changed from "
+                return (f"{what} gives {r}: the item at {'.'.join(map(str, p))} is not overwritten by other but changed from "
                         f"{get_path(d0, p)!r} to {'nothing (absent)' if after is _NOPATH else repr(after)}")
         return None
     if op == "kw":
@@ -1748,7 +1881,7 @@ def _oracle(case, res):
             return f"{what} gives {res['ctx']}, which does not contain the difference {upd_} of the intersections"
         for p in _paths(case["ctx"]):
             if p[0] != "output" and untouched(upd_, p) and get_path(res["ctx"], p) != get_path(case["ctx"], p):
-                return (f"{what} gives {res['ctx']}: the item at {'.'.join(p)} is not overwritten by other but changed "
+                return (f"{what} gives {res['ctx']}: the item at {'.'.join(map(str, p))} is not overwritten by other but changed "
                         f"from {get_path(case['ctx'], p)!r}")
         return None
     if op == "bad":
@@ -1790,6 +1923,7 @@ def _has_falsy_leaf(v):
 
 
 def classify(case, res):
+    case = _build(case)
     res = _unz(res)
     op = case["op"]
     if op == "pair":
@@ -1834,14 +1968,16 @@ def signature(case, failure):
 
 
 def _sub_values(v):
-    """smaller variants of a nested dictionary"""
-    if not isinstance(v, dict):
+    """smaller variants of a nested dictionary (case form)"""
+    if not _isd(v):
+        if isinstance(v, dict) and v.get("$") == "dictsub":
+            yield v["v"]
         return
     for k in list(v):
         c = dict(v)
         del c[k]
         yield c
-        if isinstance(v[k], dict):
+        if _isd(v[k]):
             yield dict(v, **{k: 1})
             for s in _sub_values(v[k]):
                 yield dict(v, **{k: s})
